@@ -77,6 +77,12 @@ func (t *Term) Atoms() map[string]bool {
 		case "extract":
 			m[x.Op] = true
 			m[x.Op+":"+x.Name] = true
+		case "alloc", "local":
+			n := x.Name
+			if i := strings.IndexByte(n, '#'); i >= 0 {
+				n = n[:i]
+			}
+			m["alloc:"+n] = true
 		case "len", "not", "phi", "index", "slice", "lookup", "next", "range", "closure", "typeassert":
 			m[x.Op] = true
 		default:
